@@ -155,4 +155,8 @@ Definition walk (t : tree) (prefix delim marker : string) (max : nat) (skipdirs 
       | Some node => run node (last_seg segs "")
       | None => Some empty_result
       end
-    else if invalid_root_notexist then Some empty_result else None.
+    else
+      (* a root that is no valid path (an empty, "." or ".." element) lies on the way to no key: Walk answers the empty page itself,
+         whatever the file system would say about such a name (the last parameter, which used to tell the two file-system
+         answers apart, no longer matters) *)
+      let _ := invalid_root_notexist in Some empty_result.
